@@ -389,6 +389,9 @@ impl Driver {
             Op::Reopen => {
                 self.tree = None;
                 self.snaps.clear();
+                // ids may be handed out again by the new session
+                self.dumped_tables.clear();
+                self.dumped_mts.clear();
                 // fresh counters, restarted above the highest persisted seqno (as documented
                 // for recovery); decided after open
                 self.seqno = SequenceNumberCounter::default();
